@@ -1,4 +1,5 @@
 import N0Verif.Proofs.Tlv
+import N0Verif.Proofs.Fwf
 /-!
 # C16 — positional record codecs (TLV, fixed-width) round-trip, refuse, and terminate
 
@@ -7,7 +8,7 @@ The models follow the code with the fixes C16-a (`parse_tlv` rejects a negative 
 C16-b (`load_fwf` appends a tuple to `failed_rows`) applied.
 -/
 namespace N0.C16
-open N0 N0.Py N0.Tlv
+open N0 N0.Py N0.Tlv N0.Fwf
 
 /-! ## TLV parser on arbitrary input: termination and tiling -/
 
@@ -224,5 +225,137 @@ example : (parseTlv pyInt "A 001xBB011hello world".toList 2 3).trips.map Trip.vi
 example : (parseTlv pyInt "AA005ab".toList 2 3).status = .done := by decide
 example : ¬ Fits 1 3 [("BB".toList, [])] := by
   intro h; have := h ("BB".toList, []) (by simp); revert this; decide
+
+/-! ## fixed-width rows -/
+
+/-- **C16 (fixed-width row round trip).**  For a layout whose columns end at `offset + size` and do
+not overlap, and a non-empty filler: if `generate_fwf_row` returns `text`, then parsing `text` with
+the corresponding parser layout (columns described by `width` or by `till`, any `validate`) returns
+one entry per column, and every column that was written — from the record, else from its mapping
+expression — reads back as `str(value)` padded (blanks on the right, or zeros on the left for
+`type == 'int'`) or truncated to the column size. -/
+theorem C16_fwf_roundtrip (rec : Rec) (fmt : List GCol) (filler text : Str)
+    (hc : Consistent fmt) (hfill : filler ≠ []) (hg : genRow rec fmt filler = .ok text)
+    (useWidth validate : Bool) :
+    parseRow text (fmt.map (readBack useWidth)) validate
+      = .ok (.parsed (fmt.map (fun c => (c.name, colValue text (readBack useWidth c)))))
+    ∧ ∀ c ∈ fmt, ∀ v sv, source rec c = some (.ok v) → pyStr v = .ok sv →
+        colValue text (readBack useWidth c) = some (padOrTrunc c.isInt c.size sv) := by
+  unfold genRow at hg
+  split at hg
+  · cases hg
+  · rename_i hne
+    have hne' : fmt ≠ [] := by intro h; subst h; simp at hne
+    constructor
+    · rw [parseRow_plain text validate _ (by simpa using hne') (.inr (by simp [readBack]))]
+      simp [List.map_map, Function.comp_def, readBack]
+    · intro c hcm v sv hsrc hsv
+      have hlen := filler_length (rowLen fmt) filler hfill
+      obtain ⟨_, _, h3⟩ := genCols_spec rec fmt _ text hg
+        (fun x hx => ⟨hc.1 x hx, Nat.le_trans (till_le_rowLen fmt x hx) hlen⟩) hc.2
+      have := h3 c hcm v sv hsrc hsv
+      cases useWidth
+      · simpa [colValue, readBack] using this
+      · rw [hc.1 c hcm] at this
+        simpa [colValue, readBack] using this
+
+/-- the text written into a column always has exactly the column's size -/
+theorem C16_fwf_cell_size (isInt : Bool) (size : Nat) (sv : Str) :
+    (padOrTrunc isInt size sv).length = size := padOrTrunc_length isInt size sv
+
+/-- **C16 (every row exactly once).**  If `load_fwf` returns, then — with the header layout for
+the first line, the footer layout for the last one and the body layout in between (defaults as in
+the code) — `successfully_parsed_rows` is exactly the list of the rows that non-blank lines parse
+to, `failed_rows` exactly the list of the non-blank lines whose validation failed, both in file
+order; every non-blank line parsed without raising and contributes to exactly one of the two
+lists (so their lengths add up to the number of non-blank lines), and a rejected entry carries its
+own line. -/
+theorem C16_fwf_every_row_once (lines : List Str) (hdr body ftr : List PCol) (validate : Bool)
+    (ret : Option Str) (st : Loaded) (h : loadFwf lines hdr body ftr validate ret = .ok st) :
+    let body' := if body.isEmpty then hdr else body
+    let ftr' := if ftr.isEmpty then body' else ftr
+    st.accepted = lines.zipIdx.filterMap (accOf hdr body' ftr' validate ret lines.length)
+    ∧ st.rejected = lines.zipIdx.filterMap (rejOf hdr body' ftr' validate lines.length)
+    ∧ (∀ x ∈ lines.zipIdx, x.1.isEmpty = false →
+        (∃ r, accOf hdr body' ftr' validate ret lines.length x = some r
+              ∧ rejOf hdr body' ftr' validate lines.length x = none)
+        ∨ (∃ j, rejOf hdr body' ftr' validate lines.length x = some j ∧ j.row = x.1
+              ∧ accOf hdr body' ftr' validate ret lines.length x = none))
+    ∧ st.accepted.length + st.rejected.length = (lines.filter (fun l => !l.isEmpty)).length
+    ∧ (validate = false → st.rejected = []) := by
+  intro body' ftr'
+  have key : st.accepted = lines.zipIdx.filterMap (accOf hdr body' ftr' validate ret lines.length)
+      ∧ st.rejected = lines.zipIdx.filterMap (rejOf hdr body' ftr' validate lines.length)
+      ∧ (∀ x ∈ lines.zipIdx, x.1.isEmpty = false →
+          ∃ res, parseRow x.1 (layoutAt hdr body' ftr' lines.length x.2) validate = .ok res) :=
+    loadFwf_spec lines hdr body ftr validate ret st h
+  clear_value body' ftr'
+  obtain ⟨h1, h2, h3⟩ := key
+  have hx : ∀ x ∈ lines.zipIdx, x.1.isEmpty = false →
+      (∃ r, accOf hdr body' ftr' validate ret lines.length x = some r
+            ∧ rejOf hdr body' ftr' validate lines.length x = none)
+      ∨ (∃ j, rejOf hdr body' ftr' validate lines.length x = some j ∧ j.row = x.1
+            ∧ accOf hdr body' ftr' validate ret lines.length x = none) := by
+    intro x hxm hne
+    obtain ⟨res, hres⟩ := h3 x hxm hne
+    cases res with
+    | parsed r =>
+      exact .inl ⟨addOriginal ret x.1 r, by simp [accOf, hne, hres], by simp [rejOf, hne, hres]⟩
+    | rejected rw' msg =>
+      have := (parseRow_rejected _ _ _ _ _ hres).1
+      exact .inr ⟨_, by simp only [rejOf, hne, hres, Bool.false_eq_true, if_false]; rfl, this,
+        by simp [accOf, hne, hres]⟩
+  refine ⟨h1, h2, hx, ?_, ?_⟩
+  · rw [h1, h2, ← filter_zipIdx_length lines 0]
+    apply partition_count
+    intro x hxm
+    constructor
+    · intro hp
+      have : x.1.isEmpty = true := by simpa using hp
+      simp [accOf, rejOf, this]
+    · intro hp
+      have hne : x.1.isEmpty = false := by simpa using hp
+      rcases hx x hxm hne with ⟨r, hr, hj⟩ | ⟨j, hj, _, hr⟩
+      · exact .inl ⟨by simp [hr], hj⟩
+      · exact .inr ⟨hr, by simp [hj]⟩
+  · intro hv
+    rw [h2]
+    apply List.filterMap_eq_nil_iff.mpr
+    intro x hxm
+    unfold rejOf
+    split
+    · rfl
+    · split
+      · rename_i rw' msg hres
+        have := (parseRow_rejected _ _ _ _ _ hres).2
+        rw [hv] at this; cases this
+      · rfl
+
+/-- the defect repaired by fix C16-b, on the model of the fixed code: a file whose first line is
+rejected and whose second line is accepted now loads, the rejected line is reported once with its
+line number (before the fix `failed_rows.append(i, *parsed_row)` raised `TypeError`) -/
+theorem C16_fwf_rejected_midfile :
+    loadFwf ["ab".toList, "cd".toList]
+      [{ name := "a".toList, offset := some 0, width := some 1, till := none,
+         validations := [fun v _ _ => v == some "c".toList], errorMessage := some "E".toList }]
+      [] [] true none
+    = .ok { accepted := [[("a".toList, some "c".toList)]],
+            rejected := [{ line := some 1, row := "ab".toList, msg := "E".toList }] } := by
+  decide
+
+/-! Non-vacuity (fixed-width) -/
+def exLayout : List GCol :=
+  [{ name := "id".toList, offset := 0, till := 4, size := 4, isInt := true, mapping := none },
+   { name := "nm".toList, offset := 5, till := 8, size := 3, isInt := false, mapping := none }]
+
+example : Consistent exLayout := by
+  refine ⟨by intro c hc; simp [exLayout] at hc; rcases hc with h | h <;> subst h <;> rfl, ?_⟩
+  simp [exLayout]
+
+example : genRow [("id".toList, .int (-7)), ("nm".toList, .str "abcdef".toList)] exLayout ".".toList
+    = .ok "-007.abc".toList := by decide
+
+example : parseRow "-007.abc".toList (exLayout.map (readBack true)) true
+    = .ok (.parsed [("id".toList, some "-007".toList), ("nm".toList, some "abc".toList)]) := by decide
 
 end N0.C16
